@@ -409,6 +409,9 @@ func (bsp *batchSpanProcessor) enqueueBlockOnQueueFull(ctx context.Context, sd R
 	select {
 	case bsp.queue <- sd:
 		return true
+	case <-bsp.stopCh:
+		// The batchSpanProcessor is Shutdown: nothing will free a queue slot.
+		return false
 	case <-ctx.Done():
 		return false
 	}
